@@ -808,6 +808,7 @@ class Ev:
         self.input_reply = None  # what input() answers (Str), when the evaluated code may ask the user
         self.module_cache = {}
         self.memo_calls = {}
+        self.decorated_cache = {}
         self.ctor_models = {}  # class name -> python function(args, kwargs) giving the model of the constructed object
         self.model_calls = {}  # dotted name of an outside callable -> python function(args, kwargs) modelling it
         self.assume_valid = True  # argument validators (commonroad.common.validity.is_*) hold for the symbolic inputs
@@ -1133,6 +1134,8 @@ class Ev:
             return FuncV(fn_, cls=v.owner, mod=v.owner.mod)
         if isinstance(v, NoneT):
             raise _Raise(node, "'NoneType' object has no attribute %r" % attr, "AttributeError")
+        if isinstance(v, FuncV) and attr in ("__name__", "__qualname__"):
+            return Str.lit(v.fn.name)
         return ("method", v, attr)
 
     def bind(self, fn, owner, self_val, via_class=None):
@@ -1156,6 +1159,10 @@ class Ev:
             r = Ctor(qn, bound, kind="call")
             self.trace.append(("call", node, r))
             return r
+        if not getattr(f, "raw", False):
+            wrapped = self.decorated(f)
+            if wrapped is not None:
+                return self.apply(wrapped, ([f.self_val] if f.self_val is not None else []) + list(args), kwargs, node, f.mod)
         memo_key = None
         if any(ast.unparse(d).split("(")[0] in ("functools.lru_cache", "lru_cache", "functools.cache", "cache") for d in fn.decorator_list):
             # a memoised function: one result object per argument tuple, as at run time
@@ -1184,6 +1191,22 @@ class Ev:
         finally:
             self.depth -= 1
 
+    def decorated(self, f):
+        """what a decorator *of the repository* (a module-level function of the defining module) makes of the function:
+        the decorator is evaluated on the undecorated function, once per function"""
+        fn = f.fn
+        decos = [d for d in fn.decorator_list if isinstance(d, ast.Name) and f.mod is not None and d.id in f.mod.functions]
+        if not decos or len(decos) != len([d for d in fn.decorator_list if ast.unparse(d).split("(")[0] not in ("staticmethod", "classmethod", "abstractmethod", "abc.abstractmethod")]):
+            return None
+        if id(fn) not in self.decorated_cache:
+            raw = FuncV(fn, self_val=None, cls=f.cls, mod=f.mod)
+            raw.raw = True
+            cur = raw
+            for d in reversed(decos):
+                cur = self.apply(FuncV(f.mod.functions[d.id], mod=f.mod), [cur], {}, d, f.mod)
+            self.decorated_cache[id(fn)] = cur
+        return self.decorated_cache[id(fn)]
+
     def bind_args(self, fn, args, kwargs, receiver=None, drop_first=False, mod=None):
         """parameter name -> value.  receiver: value bound to the first parameter (self / cls); drop_first: the first
         parameter is bound by the runtime and of no interest (constructor calls, opaque calls)"""
@@ -1198,13 +1221,24 @@ class Ev:
         elif drop_first:
             names = names[1:]
         if len(args) > len(names):
-            raise AnalysisError("too many arguments for %s" % fn.name)
+            if a.vararg is None:
+                raise AnalysisError("too many arguments for %s" % fn.name)
+            out[a.vararg.arg] = TupV(list(args[len(names):]))
+            args = args[: len(names)]
+        elif a.vararg is not None:
+            out[a.vararg.arg] = TupV([])
         for p, v in zip(names, args):
             out[p] = v
+        extra_kw = {}
         for k, v in kwargs.items():
             if k in out or (k not in names and a.kwarg is None and k not in [x.arg for x in a.kwonlyargs]):
                 raise _Raise(None, "unexpected or duplicate argument %s for %s" % (k, fn.name))
-            out[k] = v
+            if k not in names and k not in [x.arg for x in a.kwonlyargs]:
+                extra_kw[k] = v
+            else:
+                out[k] = v
+        if a.kwarg is not None:
+            out[a.kwarg.arg] = DictV(extra_kw)
         for p in names:
             if p not in out:
                 if p not in defaults:
@@ -2033,6 +2067,17 @@ class Ev:
             if op == "contains":
                 return self.compare(ast.In(), args[1], args[0], e)
             return self.compare(table[op], args[0], args[1], e)
+        if name in ("functools.wraps", "wraps") and args:
+            return PyFunc(lambda a, k: a[0], "functools.wraps(..)")  # the wrapper itself; only its metadata changes
+        if name in ("inspect.signature", "signature") and len(args) == 1 and isinstance(args[0], FuncV):
+            target = args[0]
+
+            def bind(a, k, target=target):
+                b = self.bind_args(target.fn, list(a), dict(k), receiver=target.self_val, mod=target.mod)
+                order = [x.arg for x in target.fn.args.posonlyargs + target.fn.args.args]
+                return Obj(None, {"args": TupV([b[p_] for p_ in order if p_ in b]), "kwargs": DictV({}), "arguments": DictV({p_: b[p_] for p_ in order if p_ in b})}, closed=True, label="bound arguments")
+
+            return Obj(None, {"bind": PyFunc(bind, "Signature.bind"), "parameters": DictV({x.arg: NONE for x in target.fn.args.args})}, closed=True, label="signature of %s" % target.fn.name)
         if name in ("itertools.repeat", "repeat") and args:
             if len(args) == 2 and isinstance(args[1], int):
                 return ListV([args[0]] * args[1])
